@@ -239,6 +239,10 @@ func hostilePrograms() []hostile {
 		)
 	}
 	hs = append(hs,
+		// what operators hand out belongs to the program: it overwrites every composite result
+		psHostile("results of operators overwritten", "matrix dup 0 42 put 3 /bad put 4 array 0 7 put 3 string 0 65 put (lit) 0 66 put <1F> 0 16#7F put <41> 0 0 put <0041> 1 9 put [1 2 3] 1 /x put "+
+			"2 dict /k 1 put << /a 1 >> /a 2 put currentdict /cd 1 put 1183615869 internaldict /i 1 put matrix 0 6 getinterval 5 (s) put", 0),
+		psHostile("results of operators overwritten in a loop", "0 1 5 { matrix exch /m put } for 0 1 255 { 1 string dup 0 4 -1 roll put 0 0 put } for <00> 0 255 put <ff> 0 1 put /done true def", 0),
 		psHostile("StandardEncoding: put", "StandardEncoding 65 /zz put", 0),
 		psHostile("StandardEncoding: putinterval", "StandardEncoding 0 [/q /r /s] putinterval", 0),
 		psHostile("StandardEncoding: copy into", "[/x /y] StandardEncoding copy pop", 0),
@@ -812,7 +816,7 @@ func main() {
 		},
 		TrustedBase: []string{"tools/instrument (sync shim, access hooks, VerifGlobals)", "go build -overlay", "reflection-based state image (cmd/c18/deep.go)"},
 		Families: func(tier string) []mc.Family {
-			budget := 50 * time.Second
+			budget := 90 * time.Second
 			length, preempt, nOps := 2, 2, 4
 			if tier == "thorough" {
 				budget = 25 * time.Minute
